@@ -80,7 +80,7 @@ def build_traces(path, tier, seed):
     recs, meta = [], {}
     npk = 60 if tier == "quick" else 400
     npl = 60 if tier == "quick" else 400
-    nmax = 800 if tier == "quick" else 5000
+    nmax = 800 if tier == "quick" else 1500       # the declarative turning-point set is quadratic in the length
     tid = 0
     for i in range(npk):
         n = gen.length(rng, 2, nmax) if i % 3 else int(rng.integers(2, 12))
